@@ -52,6 +52,7 @@ type lcSess struct {
 	notsent  []string
 	sc       *lcScn
 	curKind  atomic.Value // kind of the request the reader is inside
+	wexit    int32        // the writer has returned
 	dead     int32        // the reader is parked for ever inside the server (reported); the session is abandoned
 }
 
@@ -165,6 +166,7 @@ func (ls *lcSess) record(m *ServerComMessage) {
 // writer mirrors Session.writeLoop (hdl_websock.go:84-145): send, detach, stop.
 func (ls *lcSess) writer() {
 	s := ls.s
+	defer atomic.StoreInt32(&ls.wexit, 1)
 	for {
 		select {
 		case resume := <-ls.stall:
@@ -752,7 +754,9 @@ func (sc *lcScn) finish() {
 			close(ch)
 		}
 		if atomic.LoadInt32(&ls.dead) != 0 {
-			sc.leaked++ // its writer stays (its reader is already counted)
+			if atomic.LoadInt32(&ls.wexit) == 0 {
+				sc.leaked++ // its writer stays (its reader is already counted)
+			}
 			continue
 		}
 		atomic.AddInt32(&sc.pending, 1)
